@@ -664,7 +664,7 @@ static int vf_visit_common(const void * e, void * p)
         vf_pool[i].hn.next = VF_GARBAGE;
         vf_pool[i].hn.key = 99;
     }
-    return vf_v_n++ == vf_v_stop ? 7 + vf_v_stop : 0;
+    return vf_v_n++ == vf_v_stop ? VF_STOPVAL(vf_v_stop) : 0;
 }
 static int vf_cvisit(const void * e, void * p) { return vf_visit_common(e, p); }
 static int vf_visit(void * e, void * p) { return vf_visit_common(e, p); }
@@ -695,7 +695,7 @@ static void vf_traverse(struct cstl_hash * h, struct vf_model * m, int constant,
     }
     VF_ASSERT(total == vf_v_n, "foreach: visits are counted once each");
     if (stop >= 0 && stop < n) {
-        VF_ASSERT(res == 7 + stop, "foreach: the value with which the visit function asks to stop is returned");
+        VF_ASSERT(res == VF_STOPVAL(stop), "foreach: the value with which the visit function asks to stop is returned");
         VF_ASSERT(vf_v_n == stop + 1, "foreach: no visit after the visit function asked to stop");
     } else {
         VF_ASSERT(res == 0, "foreach: 0 when the visit function never asks to stop");
